@@ -77,6 +77,21 @@ def run(r: core.Run):
                 k += 1
                 if k >= 3:
                     break
+        # the hooks model (Props/C18: hooks_keep_no_state, routing_wf) against the real hooks: generated SELECTs, their
+        # tokens through model parser + model hooks, the pattern clauses against those the real hooks built
+        hq = os.path.join(d, "C18-hooks")
+        core.run_bwh(["query", "-mode", "optional", "-n", "60" if r.tier == "quick" else "1500", "-per", "8", "-ops", hq + ".ops", "-impl", hq + ".impl"],
+                     extra_env={"VERIF_SEED": str(r.seed)}, timeout=3000)
+        core.run_driver(["hooks"], stdin_path=hq + ".ops", out_path=hq + ".hooks")
+        hops, hks = core.read_lines(hq + ".ops"), core.read_lines(hq + ".hooks")
+        hbad = [(hops[i], hks[i]) for i in range(min(len(hops), len(hks))) if hops[i].startswith("Q") and hks[i] not in ("same", "-")]
+        r.notes["hooks_model"] = {"statements": sum(1 for x in hks if x == "same"), "disagreements": len(hbad)}
+        r.cov["evaluations"] += sum(1 for x in hks if x != "-")
+        if hbad and not mism:
+            o, a = hbad[0]
+            text = bytes.fromhex(o.split("text=")[1].split()[0]).decode("utf-8", "replace")
+            tie = core.TieBroken(f"hooks correspondence: the model of the WHERE-clause hooks and the real hooks build different pattern "
+                                 f"clauses for {len(hbad)} statements", f"first: {text!r}: {a[:500]}")
         if mism:
             o, a, m = mism[0]
             tie = core.TieBroken(f"parse correspondence: model and implementation disagree on {len(mism)} token sequences",
